@@ -47,7 +47,13 @@ ASSUMPTIONS = [
 ]
 SHARD_TIMEOUT = {"quick": 400, "thorough": 1700}
 NSHARDS = 16
-KINDS = ["ret", "ret", "raise", "cb_run", "cb_sync", "check"]
+KINDS = ["ret", "ret", "raise", "cb_run", "cb_sync", "check", "cb_sync_fatal", "cb_run_fatal"]
+
+
+class Fatal(BaseException):
+    """what a callback run in the loop may raise besides Exceptions (think SystemExit,
+    KeyboardInterrupt, a cancellation): the thread that called back must get it"""
+
 
 
 class Boom(Exception):
@@ -166,6 +172,15 @@ def execute(case: dict) -> dict:
     def scb(x: int) -> tuple:
         return ("scb", x, threading.get_ident())
 
+    fatals = [Fatal(i) for i in range(n)]
+
+    def scb_fatal(x: int) -> None:
+        raise fatals[x]
+
+    async def acb_fatal(x: int) -> None:
+        await checkpoint()
+        raise fatals[x]
+
     def make_fn(i: int, spec: dict):  # noqa: ANN202
         def fn():  # noqa: ANN202
             mon.ev("fn_start", i)
@@ -196,6 +211,19 @@ def execute(case: dict) -> dict:
                         seen[i]["cb"] = from_thread.run_sync(scb, i)
                     except BaseException as e:  # noqa: BLE001
                         seen[i]["cb_exc"] = repr(e)
+                elif spec["kind"] in ("cb_sync_fatal", "cb_run_fatal"):
+                    mon.ev("cb_fatal_call", i)
+                    try:
+                        if spec["kind"] == "cb_sync_fatal":
+                            from_thread.run_sync(scb_fatal, i)
+                        else:
+                            from_thread.run(acb_fatal, i)
+
+                        seen[i]["fatal"] = "returned"
+                    except BaseException as e:  # noqa: BLE001
+                        seen[i]["fatal"] = "same" if e is fatals[i] else repr(e)
+
+                    mon.ev("cb_fatal_ret", i)
             finally:
                 mon.ev("fn_end", i)
 
@@ -306,9 +334,20 @@ def execute(case: dict) -> dict:
         except TimeoutError:
             ended = all(("fn_end", i) in mon.seqs or ("fn_start", i) not in mon.seqs
                         for i in range(n))  # fmt: skip
+            stuck_cb = [i for i in range(n) if ("cb_fatal_call", i) in mon.seqs
+                        and ("cb_fatal_ret", i) not in mon.seqs]  # fmt: skip
             if ended:
                 viol.append(("caller-never-resumed-although-its-function-ended",
                              {"log_tail": [list(map(str, e)) for e in mon.log[-12:]]}))  # fmt: skip
+            elif stuck_cb:
+                # the loop is alive (this very timeout ran in it) but the thread's call back
+                # into it never returned; the un-abandoned caller can never be released, so
+                # this process cannot finish the case: record and leave
+                from ..collect import abort_shard
+
+                abort_shard("from_thread-call-never-returned-to-the-thread",
+                            {"detail": {"calls": stuck_cb},
+                             "events": [list(map(str, e)) for e in mon.log[-30:]]}, case)  # fmt: skip
             else:
                 out["inconclusive"] = "watchdog: thread functions still running"
         finally:
@@ -425,6 +464,12 @@ def execute(case: dict) -> dict:
                 viol.append(("check_cancelled-raised-without-cancel", {"call": i, "exc": raised}))
             elif raised:
                 window("check_cancelled_raised")
+
+        if spec["kind"] in ("cb_sync_fatal", "cb_run_fatal") and "fatal" in seen[i]:
+            window("callback_raised_non_Exception")
+            if seen[i]["fatal"] != "same" and cancel_before is None:
+                viol.append(("from_thread-callback-exception-not-delivered-to-the-thread",
+                             {"call": i, "kind": spec["kind"], "got": seen[i]["fatal"]}))  # fmt: skip
 
         if spec["kind"] == "cb_run" and started:
             if seen[i].get("cb") != ("acb", i) and "cb_exc" not in seen[i]:
